@@ -608,6 +608,11 @@ def b_integ(A, s):
     kw['theta0'] = s.get('theta0', 1.0)
     kw['initial_t'] = s.get('initial_t', 0)
     f = getattr(Integration, INTEG[d])
+    if s.get('X'):
+        # the X-chromosome integrator (one population): same time-step machinery, two more parameters
+        assert d == 1
+        f = Integration.one_pop_X
+        kw['beta'] = s.get('beta', 1.5); kw['alpha'] = s.get('alpha', 2.0)
     T = s['T']
     return lambda: f(phi, xx, T, **kw)
 
@@ -1076,10 +1081,43 @@ class Instrument:
 
 # ------------------------------------------------------------------------------------------------------------------
 
+def _resolve_setting(name):
+    """'Integration.timescale_factor' -> (module dadi.Integration, 'timescale_factor'); 'Demes.Inference._counter'; 'numpy.random.seed'"""
+    import importlib
+    modpath, attr = name.rsplit('.', 1)
+    for cand in ('dadi.' + modpath, modpath):
+        try:
+            return importlib.import_module(cand), attr
+        except ImportError:
+            continue
+    raise ValueError('no module for setting %r' % name)
+
+
+def apply_settings(spec):
+    """module-level SETTINGS are arguments of the call: spec['settings'] = [{'name': 'Integration.timescale_factor', 'how': 'assign', 'value': v} |
+    {'name': 'Integration.set_timescale_factor', 'how': 'call', 'args': [...]}] is carried out, in order, before the call - exactly what a user script
+    does (`dadi.Integration.timescale_factor = v`, or the setter).  The assignment is PLAIN attribute assignment and stays in force afterwards:
+    it is part of the history of the process."""
+    done = []
+    for st in spec.get('settings') or []:
+        mod, attr = _resolve_setting(st['name'])
+        if st['how'] == 'assign':
+            if not hasattr(mod, attr):
+                raise AttributeError('%s has no module-level setting %s' % (mod.__name__, attr))
+            setattr(mod, attr, st['value'])
+        elif st['how'] == 'call':
+            getattr(mod, attr)(*st.get('args', []))
+        else:
+            raise ValueError(st['how'])
+        done.append(st['name'])
+    return done
+
+
 def evaluate(spec, layout=None, full=False):
     A = Args(layout)
     rec = {}
     try:
+        apply_settings(spec)
         thunk = BUILDERS[spec['op']](A, spec)
     except Exception as e:
         return {'build_error': type(e).__name__ + ': ' + str(e)[:300]}, None, A
@@ -1167,12 +1205,46 @@ def mode_layout(p):
     return {'calls': out}
 
 
+def discovered_memo_wrappers():
+    """every object with cache_clear() (functools.lru_cache / functools.cache wrappers) reachable as a module-level attribute of an imported dadi
+    module or as an attribute of a class defined there: they hold their entries out of reach of `vars(module)`"""
+    out = {}
+    for mname, m in sorted(sys.modules.items()):
+        if m is None or not (mname == 'dadi' or mname.startswith('dadi.')):
+            continue
+        for attr, val in sorted(vars(m).items()):
+            objs = [(attr, val)]
+            if isinstance(val, type) and getattr(val, '__module__', None) == mname:
+                objs += [(attr + '.' + a, v) for a, v in sorted(vars(val).items())]
+            for a, v in objs:
+                if callable(getattr(v, 'cache_clear', None)) and not isinstance(v, type):
+                    out.setdefault(id(v), (mname.replace('dadi.', '', 1) + '.' + a + ' (memoising decorator)', v))
+    return dict(out.values())
+
+
 def mode_diagnose(p):
     calls = p['calls']; k = p['index']
     for spec in calls[:k]:
         evaluate(spec)
     tab = cache_table()
     tab.update(discovered_dicts())
+    wrappers = discovered_memo_wrappers()
+    wres = {}
+    if wrappers:
+        # a memoising wrapper cannot be restored once cleared: each probe runs in its own fork of the state reached after calls[:k]
+        def probe(names):
+            def run():
+                if names is None:
+                    for d in tab.values():
+                        d.clear()
+                for n, w in wrappers.items():
+                    if names is None or n in names:
+                        w.cache_clear()
+                return {'digest': evaluate(calls[k])[0]['digest']}
+            return run
+        wres['all'] = in_fork(probe(None)).get('digest')
+        for n in wrappers:
+            wres[n] = in_fork(probe([n])).get('digest')
     saved = {n: dict(d) for n, d in tab.items()}
     def restore():
         for n, d in tab.items():
@@ -1188,6 +1260,14 @@ def mode_diagnose(p):
     for n in tab:
         restore(); tab[n].clear()
         r, c, _ = evaluate(calls[k]); res['one_cleared'][n] = r['digest']
+    if wrappers:
+        res['all_cleared'] = wres['all']              # dictionaries AND memoising wrappers emptied
+        for n in wrappers:
+            res['one_cleared'][n] = wres[n]
+        try:
+            res['wrapper_sizes'] = {n: w.cache_info().currsize for n, w in wrappers.items()}
+        except Exception:
+            pass
     return res
 
 
